@@ -1,7 +1,9 @@
 //! C14: range results are the per-day results for exactly the days in the range.
+use crate::f_policy::DayCase;
 use crate::falsify::*;
 use crate::gen::*;
 use crate::rng::Rng;
+use crate::units::{gen_location, pt_tok};
 use chrono::Datelike;
 use islamic_prayer_times::*;
 use serde_json::{json, Value};
@@ -85,10 +87,75 @@ fn one(ctx: &mut Ctx, s: i64, e: i64, k: usize, with_api: bool) {
     }
 }
 
+
+/// The range API against the single-date API for an arbitrary parameter set and place: the same
+/// dates, each entry identical.  (Catches anything carried over from one day of the range to the next.)
+fn api_one(ctx: &mut Ctx, c: &DayCase, days: i64) {
+    ctx.eval();
+    let (s, e) = (c.rd, c.rd + days - 1);
+    let input = json!({"kind": "range-api", "start": ymd(s), "end": ymd(e), "days": days, "day": c.to_json()});
+    let dr = DateRange::from(date_of_rd(s)..=date_of_rd(e));
+    let (pn, _) = policy_name(&c.p.extreme_latitude_method);
+    ctx.nontrivial(&format!("api|{}|{}|{:.0}|{}", pn, days, f64::from(c.l.coords.latitude), s % 365));
+    match catch_unwind(AssertUnwindSafe(|| prayer_times_dt_rng(&c.p, c.l, &dr))) {
+        Err(_) => ctx.fail(input, "prayer_times_dt_rng panicked".into(), "a map".into()),
+        Ok(m) => {
+            let keys: Vec<i64> = m.keys().map(|d| d.num_days_from_ce() as i64).collect();
+            let want: Vec<i64> = (s..=e).collect();
+            if keys != want {
+                ctx.fail(input, format!("{} keys", keys.len()), format!("{} keys start..=end", want.len()));
+                return;
+            }
+            for (d, v) in &m {
+                let single = catch_unwind(AssertUnwindSafe(|| prayer_times_dt(&c.p, c.l, *d, None)));
+                match single {
+                    Ok(sv) if sv == *v => {}
+                    Ok(sv) => {
+                        let diff: Vec<String> = PRAYERS.iter().filter(|q| sv.get(q) != v.get(q)).map(|q| format!("{:?}: range {} vs single {}", q, v.get(q).map(pt_tok).unwrap_or_default(), sv.get(q).map(pt_tok).unwrap_or_default())).collect();
+                        ctx.fail(input.clone(), format!("entry {} differs from prayer_times_dt: {}", d, diff.join("; ")), "each entry identical to the single-date API".into());
+                        return;
+                    }
+                    Err(_) => {
+                        ctx.fail(input.clone(), format!("prayer_times_dt panicked on {}", d), "a result".into());
+                        return;
+                    }
+                }
+            }
+        }
+    }
+}
+
+/// parameter sets, places and ranges for `api_one`: every method and policy, half of the cases at
+/// 46..70 degrees with the range starting in the season without twilight and running out of it
+pub fn gen_range_case(r: &mut Rng, max_days: i64) -> (DayCase, i64) {
+    let (m, _) = METHODS[1 + r.below(8) as usize];
+    let mut p = Params::new(m);
+    p.extreme_latitude_method = policy(r.below(15) as usize, if r.chance(0.5) { 48.5 } else { r.range(-60., 60.) });
+    p.round_seconds = r.pick(&ROUNDS);
+    if r.chance(0.3) {
+        *p.intervals.get_mut(&Prayer::Imsaak).unwrap() = r.range(1., 30.);
+    }
+    let mut l = gen_location(r, 70., 6.);
+    let mut rd = gen_rd(r).min(rd_of(2399, 12, 31) - max_days);
+    if r.chance(0.6) {
+        let lat = r.range(46., 70.) * if r.chance(0.5) { 1. } else { -1. };
+        l.coords.latitude = Latitude::try_from(lat).unwrap();
+        let y = r.int(1601, 2398) as i32;
+        rd = rd_of(y, if lat >= 0. { 6 } else { 12 }, 21) + r.int(-90, 60);
+    }
+    let days = r.int(2, max_days);
+    (DayCase { p, l, rd, w: None }, days)
+}
+
 pub fn c14(ctx: &mut Ctx, tier: &str, r: &mut Rng, js: &[Value], _reqs: &[String], replay_only: bool) {
     for v in js {
         if let (Some(s), Some(e), Some(k)) = (v.get("start_rd").and_then(|x| x.as_i64()), v.get("end_rd").and_then(|x| x.as_i64()), v.get("parts").and_then(|x| x.as_u64())) {
             one(ctx, s, e, k as usize, true);
+        }
+    }
+    for v in js {
+        if let (Some(c), Some(days)) = (v.get("day").and_then(DayCase::from_json), v.get("days").and_then(|x| x.as_i64())) {
+            api_one(ctx, &c, days);
         }
     }
     if replay_only {
@@ -114,6 +181,12 @@ pub fn c14(ctx: &mut Ctx, tier: &str, r: &mut Rng, js: &[Value], _reqs: &[String
         let s = gen_rd(r);
         let span = r.int(-5, 2000);
         one(ctx, s, s + span - 1, r.below(65) as usize, false);
+    }
+    // the range API against the single-date API over methods, policies, places and seasons
+    let n_sweep = if tier == "thorough" { 1500 } else { 60 };
+    for _ in 0..n_sweep {
+        let (c, days) = gen_range_case(r, 150);
+        api_one(ctx, &c, days);
     }
     ctx.sample(json!({"start": ymd(anchors[1]), "end": ymd(anchors[1] + 9), "parts": 4}));
     ctx.sample(json!({"start": ymd(anchors[0]), "end": ymd(anchors[0] - 5), "parts": 3}));
